@@ -1,9 +1,468 @@
-//! Deterministic async executor runs (C03 async, C09, C18 async).
-use crate::prog::Prog;
-use crate::runner::{Case, CaseReport, Mode};
+//! Deterministic executor for the async macros (C03 async, C09, C18 async).
+//!
+//! The macro's future is polled by hand with a flag-setting waker inside a tokio
+//! `current_thread` runtime (needed by the task-spawning variants; spawned tasks run when the
+//! controller yields). Every future-returning harness callback awaits a gate future that stays
+//! pending until the controller opens it, so the order in which pending points become ready
+//! is a generated value. No wall clock is involved.
 
-pub fn run_case(_case: &Case, _prog: &Prog, _mode: &Mode) -> CaseReport {
-    let mut r = CaseReport::new();
-    r.infra.push("async runner not built".into());
-    r
+use crate::log::{self, Ev, K};
+use crate::model::{self, Expect};
+use crate::oracle::{Obs, Violation};
+use crate::plan::{self, Plan};
+use crate::prog::*;
+use crate::runner::{panic_message, reset_all, Case, CaseFn, CaseReport, Mode};
+use crate::sched;
+use crate::sem::Out;
+use futures::task::ArcWake;
+use serde_json::json;
+use std::future::Future;
+use std::panic::{catch_unwind, AssertUnwindSafe};
+use std::sync::atomic::{AtomicBool, AtomicU64, Ordering};
+use std::sync::Arc;
+use std::task::{Context, Poll};
+
+fn viol(oracle: &'static str, detail: String) -> Violation {
+    Violation { oracle, detail }
+}
+
+struct Flag {
+    set: AtomicBool,
+    count: AtomicU64,
+}
+
+impl ArcWake for Flag {
+    fn wake_by_ref(a: &Arc<Self>) {
+        a.set.store(true, Ordering::SeqCst);
+        a.count.fetch_add(1, Ordering::SeqCst);
+    }
+}
+
+pub struct AsyncRun {
+    pub outcome: Option<Out>,
+    pub panic_msg: Option<String>,
+    pub events: Vec<Ev>,
+    pub violations: Vec<Violation>,
+    /// number of alternatives at each scheduling decision (for systematic enumeration)
+    pub arity: Vec<usize>,
+    pub polls: u64,
+    pub spurious: u64,
+    pub opened_out_of_order: bool,
+}
+
+#[derive(Clone, Debug, Default)]
+pub struct ASchedule {
+    /// choice at the k-th scheduling decision (index into the sorted set of waiting gates)
+    pub picks: Vec<usize>,
+    /// extra knobs derived from a seed: spurious polls and batch opening
+    pub knob: u64,
+    /// which future-returning callbacks are gated: 0 all, 1 first of each cell, 2 last of each cell
+    pub gate_sel: u8,
+}
+
+impl ASchedule {
+    pub fn to_json(&self) -> serde_json::Value {
+        json!({"picks": self.picks, "knob": self.knob, "gate_sel": self.gate_sel})
+    }
+}
+
+pub fn choose_gates(exp: &Expect, sel: u8) -> Vec<u32> {
+    let mut out = Vec::new();
+    for se in &exp.steps {
+        for bs in se.branches.iter().flatten() {
+            if bs.gates.is_empty() {
+                continue;
+            }
+            match sel {
+                0 => out.extend(bs.gates.iter().copied()),
+                1 => out.push(bs.gates[0]),
+                _ => out.push(*bs.gates.last().unwrap()),
+            }
+        }
+    }
+    out
+}
+
+async fn settle() {
+    // let spawned tasks run until nothing changes any more
+    let mut stable = 0;
+    let mut last = (log::len(), sched::async_waiting().len());
+    for _ in 0..10_000 {
+        tokio::task::yield_now().await;
+        let now = (log::len(), sched::async_waiting().len());
+        if now == last {
+            stable += 1;
+            if stable >= 3 {
+                return;
+            }
+        } else {
+            stable = 0;
+            last = now;
+        }
+    }
+}
+
+#[derive(Clone, Copy, PartialEq)]
+pub enum What {
+    Barrier,
+    Progress,
+    Panic,
+}
+
+/// One controlled evaluation.
+pub fn run_async(case: &Case, prog: &Prog, plan: &Plan, exp: &Expect, sch: &ASchedule, what: What) -> AsyncRun {
+    reset_all();
+    crate::cb::ASYNC_MODE.store(true, Ordering::SeqCst);
+    plan::set(plan.clone());
+    let f = match &case.f {
+        CaseFn::Async(f) => *f,
+        _ => panic!("async run of a sync case"),
+    };
+    let kind = prog.kind();
+    let rt = tokio::runtime::Builder::new_current_thread().enable_time().build().unwrap();
+    let local = tokio::task::LocalSet::new();
+    let loc = exp.loc.clone();
+    let gated: Vec<u32> = plan.gates.clone();
+    // per branch-step ordered gate lists restricted to the gated ids (for the progress check)
+    let chains: Vec<Vec<u32>> = exp
+        .steps
+        .iter()
+        .flat_map(|se| se.branches.iter().flatten().map(|bs| bs.gates.iter().copied().filter(|g| gated.contains(g)).collect::<Vec<u32>>()))
+        .filter(|c: &Vec<u32>| !c.is_empty())
+        .collect();
+    let first_gates_of_step = |s: usize| -> Vec<u32> {
+        exp.steps
+            .get(s)
+            .map(|se| se.branches.iter().flatten().filter_map(|bs| bs.gates.iter().copied().find(|g| gated.contains(g))).collect())
+            .unwrap_or_default()
+    };
+    let sch = sch.clone();
+    let res = catch_unwind(AssertUnwindSafe(|| {
+        local.block_on(&rt, async move {
+            let mut violations: Vec<Violation> = Vec::new();
+            let mut arity = Vec::new();
+            let mut polls = 0u64;
+            let mut spurious = 0u64;
+            let mut out_of_order = false;
+            let flag = Arc::new(Flag { set: AtomicBool::new(false), count: AtomicU64::new(0) });
+            let waker = futures::task::waker(flag.clone());
+            let mut cx = Context::from_waker(&waker);
+            // ---- laziness: building the future evaluates nothing
+            let mut root = f();
+            if what == What::Progress && log::len() != 0 {
+                violations.push(viol("lazy", format!("events before the first poll: {:?}", log::snapshot().iter().map(|e| e.short()).collect::<Vec<_>>())));
+            }
+            let mut outcome: Option<Out> = None;
+            let mut panic_msg: Option<String> = None;
+            let mut decision = 0usize;
+            let mut knob = sch.knob;
+            let mut next_knob = move || {
+                knob = crate::tok::mixf(knob, 77);
+                knob
+            };
+            let mut first_poll = true;
+            let mut steps_seen_started: Vec<bool> = vec![false; exp.steps.len()];
+            let later_events = |s: usize| -> Vec<String> {
+                log::snapshot()
+                    .iter()
+                    .filter(|e| !matches!(e.k, K::Mark | K::Joiner | K::Fx | K::HExpr))
+                    .filter(|e| loc.get(&e.id).map(|l| l.0 != usize::MAX && l.1 > s).unwrap_or(false))
+                    .map(|e| e.short())
+                    .collect()
+            };
+            let mut last_opened: Option<u32> = None;
+            let mut guard = 0;
+            loop {
+                guard += 1;
+                if guard > 10_000 {
+                    violations.push(viol("complete", "executor loop did not terminate".into()));
+                    break;
+                }
+                let notified = flag.set.swap(false, Ordering::SeqCst);
+                let do_spurious = sch.knob != 0 && !first_poll && !notified && next_knob() % 5 == 0;
+                if first_poll || notified || do_spurious {
+                    if do_spurious {
+                        spurious += 1;
+                    }
+                    first_poll = false;
+                    polls += 1;
+                    let r = catch_unwind(AssertUnwindSafe(|| root.as_mut().poll(&mut cx)));
+                    match r {
+                        Ok(Poll::Ready(o)) => {
+                            outcome = Some(o);
+                            break;
+                        }
+                        Ok(Poll::Pending) => {}
+                        Err(p) => {
+                            panic_msg = Some(panic_message(&p));
+                            break;
+                        }
+                    }
+                }
+                settle().await;
+                if flag.set.load(Ordering::SeqCst) {
+                    continue; // woken while tasks ran: poll again first
+                }
+                let waiting = sched::async_waiting();
+                // ---- progress: the branch whose gate was opened last has moved on to its next gate
+                if what == What::Progress {
+                    // (a try macro whose step fails may drop sibling branches half way: no claim there)
+                    let failing_step = if kind.is_try { exp.fail_step } else { None };
+                    if let Some(g) = last_opened.take().filter(|g| loc.get(g).map(|l| Some(l.1) != failing_step).unwrap_or(true)) {
+                        for c in &chains {
+                            if let Some(i) = c.iter().position(|x| *x == g) {
+                                if let Some(nx) = c.get(i + 1) {
+                                    if !sched::async_arrived(*nx) && panic_msg.is_none() {
+                                        violations.push(viol(
+                                            "progress",
+                                            format!("gate {} was opened (siblings still pending: {:?}) but its branch did not reach its next pending point {}", g, waiting, nx),
+                                        ));
+                                    }
+                                }
+                            }
+                        }
+                    }
+                    // concurrency: when a step has started, every active branch has reached its first gate
+                    for s in 0..exp.steps.len() {
+                        if steps_seen_started[s] || failing_step == Some(s) {
+                            continue;
+                        }
+                        let fg = first_gates_of_step(s);
+                        if fg.iter().any(|g| sched::async_arrived(*g)) {
+                            steps_seen_started[s] = true;
+                            let missing: Vec<u32> = fg.iter().copied().filter(|g| !sched::async_arrived(*g)).collect();
+                            if !missing.is_empty() {
+                                violations.push(viol(
+                                    "concurrent",
+                                    format!("step {}: after polling, gates {:?} were reached but {:?} were not: a pending branch blocks its siblings", s, fg, missing),
+                                ));
+                            }
+                        }
+                    }
+                }
+                if waiting.is_empty() {
+                    // nothing is pending on the harness side, the root was not notified and is not ready
+                    violations.push(viol(
+                        "complete",
+                        format!("every pending point is open and no wake-up is outstanding, but the macro's future is still pending after {} polls (lost wake-up or hang)", polls),
+                    ));
+                    break;
+                }
+                // ---- barrier: while a gate of step s is closed nothing of a later step exists
+                if what == What::Barrier {
+                    let smin = waiting.iter().filter_map(|g| loc.get(g).map(|l| l.1)).min().unwrap_or(0);
+                    let later = later_events(smin);
+                    if !later.is_empty() {
+                        violations.push(viol("barrier", format!("gates {:?} of step {} are still closed but later-step events exist: {:?}", waiting, smin, later)));
+                        break;
+                    }
+                }
+                // ---- scheduling decision
+                arity.push(waiting.len());
+                let pick = sch.picks.get(decision).copied().unwrap_or(0).min(waiting.len() - 1);
+                decision += 1;
+                if pick != 0 {
+                    out_of_order = true;
+                }
+                let g = waiting[pick];
+                let before = flag.count.load(Ordering::SeqCst);
+                let woke = sched::async_open(g);
+                last_opened = Some(g);
+                // batch: sometimes open a second gate before polling again
+                if sch.knob != 0 && waiting.len() > 1 && next_knob() % 4 == 0 {
+                    let g2 = waiting[(pick + 1) % waiting.len()];
+                    sched::async_open(g2);
+                    last_opened = None;
+                }
+                if !kind.is_spawn && woke && flag.count.load(Ordering::SeqCst) == before {
+                    violations.push(viol("wakeup", format!("opening gate {} woke its waker but the macro's future was not notified", g)));
+                }
+            }
+            drop(root);
+            (outcome, panic_msg, violations, arity, polls, spurious, out_of_order)
+        })
+    }));
+    drop(local);
+    drop(rt);
+    let events = log::snapshot();
+    match res {
+        Ok((outcome, panic_msg, violations, arity, polls, spurious, ooo)) => AsyncRun { outcome, panic_msg, events, violations, arity, polls, spurious, opened_out_of_order: ooo },
+        Err(p) => AsyncRun {
+            outcome: None,
+            panic_msg: Some(panic_message(&p)),
+            events,
+            violations: vec![viol("executor", "the controller itself panicked".to_string())],
+            arity: vec![],
+            polls: 0,
+            spurious: 0,
+            opened_out_of_order: false,
+        },
+    }
+}
+
+/// constructs the macro's future and drops it without polling: nothing may have been evaluated
+pub fn run_unpolled(case: &Case, plan: &Plan) -> Vec<Violation> {
+    reset_all();
+    crate::cb::ASYNC_MODE.store(true, Ordering::SeqCst);
+    plan::set(plan.clone());
+    let f = match &case.f {
+        CaseFn::Async(f) => *f,
+        _ => return vec![],
+    };
+    let rt = tokio::runtime::Builder::new_current_thread().build().unwrap();
+    let local = tokio::task::LocalSet::new();
+    local.block_on(&rt, async move {
+        let fut = f();
+        drop(fut);
+        settle().await;
+    });
+    drop(local);
+    drop(rt);
+    let ev = log::snapshot();
+    if ev.is_empty() {
+        vec![]
+    } else {
+        vec![viol("lazy", format!("future built and dropped without polling, yet: {:?}", ev.iter().map(|e| e.short()).collect::<Vec<_>>()))]
+    }
+}
+
+/// Task-spawning signature: with every pending point gated, how many gates have been reached
+/// after the *first poll* of the macro's future, before the runtime ran any spawned task.
+/// (not spawned: every active branch of step 0; spawned: none when step 0 has > 1 branch)
+pub fn first_poll_arrivals(case: &Case, prog: &Prog) -> usize {
+    reset_all();
+    crate::cb::ASYNC_MODE.store(true, Ordering::SeqCst);
+    let mut plan = Plan::all_good();
+    let exp = model::interpret(prog, &plan);
+    plan.gates = choose_gates(&exp, 0);
+    plan::set(plan);
+    let f = match &case.f {
+        CaseFn::Async(f) => *f,
+        _ => return 0,
+    };
+    let rt = tokio::runtime::Builder::new_current_thread().build().unwrap();
+    let local = tokio::task::LocalSet::new();
+    let n = local.block_on(&rt, async move {
+        let flag = Arc::new(Flag { set: AtomicBool::new(false), count: AtomicU64::new(0) });
+        let waker = futures::task::waker(flag.clone());
+        let mut cx = Context::from_waker(&waker);
+        let mut root = f();
+        let _ = catch_unwind(AssertUnwindSafe(|| root.as_mut().poll(&mut cx)));
+        let n = sched::async_waiting().len();
+        sched::open_all();
+        drop(root);
+        n
+    });
+    drop(local);
+    drop(rt);
+    n
+}
+
+fn next_picks(picks: &[usize], arity: &[usize]) -> Option<Vec<usize>> {
+    // odometer over the choice points actually met in the last run
+    let mut p: Vec<usize> = (0..arity.len()).map(|i| picks.get(i).copied().unwrap_or(0).min(arity[i].saturating_sub(1))).collect();
+    let mut i = p.len();
+    while i > 0 {
+        i -= 1;
+        if p[i] + 1 < arity[i] {
+            p[i] += 1;
+            p.truncate(i + 1);
+            return Some(p);
+        }
+    }
+    None
+}
+
+pub fn run_case(case: &Case, prog: &Prog, mode: &Mode) -> CaseReport {
+    let mut rep = CaseReport::new();
+    let m = mode.name.as_str();
+    let what = match m {
+        "C03A" => What::Barrier,
+        _ => What::Progress,
+    };
+    let ids = model::decision_ids(prog);
+    let mut picks: Vec<usize> = vec![];
+    let mut exhausted = false;
+    if what == What::Progress {
+        let vs = run_unpolled(case, &Plan::all_good());
+        rep.runs += 1;
+        if !vs.is_empty() {
+            rep.violation(&Plan::all_good(), json!({"unpolled": true}), &vs, &[]);
+            return rep;
+        }
+    }
+    for k in 0..mode.budget.max(1) {
+        let mut plan = Plan::all_good();
+        if k % 4 == 3 && !ids.is_empty() {
+            plan.bad = vec![ids[(k / 4) % ids.len()]];
+        }
+        let gate_sel = if exhausted { ((k % 2) + 1) as u8 } else { 0 };
+        let exp0 = model::interpret(prog, &plan);
+        plan.gates = choose_gates(&exp0, gate_sel);
+        let exp = exp0;
+        // systematic phase: pure wake-up orders; afterwards random orders with spurious polls and batches
+        let knob = if exhausted { (mode.seed ^ ((case.idx as u64) << 20) ^ k as u64) | 1 } else { 0 };
+        let sch = ASchedule { picks: picks.clone(), knob, gate_sel };
+        let ar = run_async(case, prog, &plan, &exp, &sch, what);
+        rep.runs += 1;
+        let mut vs = ar.violations.clone();
+        let obs = Obs { prog, exp: &exp, events: &ar.events, outcome: ar.outcome.as_ref() };
+        match what {
+            What::Barrier => vs.extend(obs.barrier_log()),
+            What::Progress => {
+                if ar.panic_msg.is_none() && vs.is_empty() {
+                    // completes with the model's value under every wake-up order
+                    vs.extend(obs.outcome());
+                }
+                if let Some(p) = &ar.panic_msg {
+                    vs.push(viol("complete", format!("polling panicked: {}", p)));
+                }
+            }
+            What::Panic => {}
+        }
+        let n = prog.branches.len();
+        let nt = match what {
+            What::Barrier => n >= 2 && prog.max_steps() >= 2 && (ar.opened_out_of_order || prog.depths().iter().any(|d| *d != prog.depths()[0])),
+            _ => n >= 2 && ar.opened_out_of_order && ar.arity.len() >= 2,
+        };
+        if nt {
+            rep.nontrivial += 1;
+            if rep.samples.is_empty() {
+                rep.samples.push(json!({"schedule": sch.to_json(), "plan": plan.to_json(), "polls": ar.polls, "spurious_polls": ar.spurious, "decisions": ar.arity}));
+            }
+        }
+        rep.class(&format!("gate_sel={}", gate_sel));
+        if ar.spurious > 0 {
+            rep.class("with_spurious_poll");
+        }
+        if ar.opened_out_of_order {
+            rep.class("out_of_index_order");
+        }
+        rep.class(&format!("decisions={}", ar.arity.len().min(8)));
+        if !vs.is_empty() {
+            rep.violation(&plan, json!({"schedule": sch.to_json(), "panic": ar.panic_msg, "outcome": ar.outcome.as_ref().map(|o| o.to_json())}), &vs, &ar.events);
+            break;
+        }
+        // systematic enumeration of wake-up orders, then random knobs on the last order
+        if !exhausted {
+            match next_picks(&picks, &ar.arity) {
+                Some(p) => picks = p,
+                None => {
+                    exhausted = true;
+                    rep.class("orders_exhausted");
+                    picks = vec![];
+                }
+            }
+        } else {
+            // random picks derived from the knob
+            let mut x = sch.knob;
+            picks = (0..ar.arity.len().max(1))
+                .map(|_| {
+                    x = crate::tok::mixf(x, 5);
+                    (x % 7) as usize
+                })
+                .collect();
+        }
+    }
+    rep
 }
